@@ -67,6 +67,45 @@ def RoundingMode.fromU32 (v : UInt32) : Except String RoundingMode :=
   if v == 0 then .ok .NearestEven else if v == 1 then .ok .Downward else if v == 2 then .ok .Upward
   else if v == 3 then .ok .TowardZero else if v == 4 then .ok .NearestAway else .error "Unknown rounding mode"
 
+
+/-- `d128::ClassTypes` -/
+inductive ClassTypes
+  | SignalingNaN | QuietNaN | NegativeInfinity | NegativeNormal | NegativeSubnormal | NegativeZero
+  | PositiveZero | PositiveSubnormal | PositiveNormal | PositiveInfinity
+  deriving DecidableEq, Repr, Inhabited
+
+/-- The IEEE binary encoding (`ebits` exponent bits, `mbits` stored significand bits) of the unsigned integer `n`
+rounded to nearest, ties to even — what `n as f64` / `n as f32` computes for an unsigned `n`.  Exact rational
+arithmetic on `Nat`; no floating point is used anywhere in the model. -/
+def floatBitsOfNat (mbits bias : Nat) (n : Nat) : Nat :=
+  if n = 0 then 0
+  else
+    let l := Nat.log2 n                                   -- 2^l ≤ n < 2^(l+1)
+    if l ≤ mbits then (l + bias) * 2 ^ mbits + (n * 2 ^ (mbits - l) - 2 ^ mbits)
+    else
+      let sh := l - mbits
+      let q := n / 2 ^ sh
+      let r := n % 2 ^ sh
+      let half := 2 ^ (sh - 1)
+      let q := if r > half || (r == half && q % 2 == 1) then q + 1 else q
+      -- q = 2^(mbits+1) after rounding up carries into the exponent field by itself
+      (l + bias) * 2 ^ mbits + (q - 2 ^ mbits)
+
+/-- `BID_UI64DOUBLE`: a `union { ui64: u64, d: f64 }`, kept as its bits.  The library only ever stores an
+unsigned integer converted to `f64` in it and reads the bits back (to get the position of the leading bit). -/
+structure F64U where
+  bits : UInt64
+  deriving DecidableEq, Repr, Inhabited
+
+def F64U.ofU64 (x : UInt64) : F64U := ⟨UInt64.ofNat (floatBitsOfNat 52 1023 x.toNat)⟩
+
+/-- `BID_UI32FLOAT`: `union { ui32: u32, d: f32 }`, kept as its bits -/
+structure F32U where
+  bits : UInt32
+  deriving DecidableEq, Repr, Inhabited
+
+def F32U.ofU64 (x : UInt64) : F32U := ⟨UInt32.ofNat (floatBitsOfNat 23 127 x.toNat)⟩
+
 /-- the mathematical value of a Rust scalar (what an `as` cast starts from) -/
 class ToI (α : Type) where
   toI : α → Int
@@ -118,6 +157,19 @@ def tbl192 (t : List Nat) (i : UInt64) : Except String U192 :=
 def tbl256 (t : List Nat) (i : UInt64) : Except String U256 :=
   match t[4 * i.toNat]?, t[4 * i.toNat + 1]?, t[4 * i.toNat + 2]?, t[4 * i.toNat + 3]? with
   | some a, some b, some c, some d => .ok ⟨UInt64.ofNat a, UInt64.ofNat b, UInt64.ofNat c, UInt64.ofNat d⟩
+  | _, _, _, _ => .error "index out of bounds"
+
+/-- `DEC_DIGITS { digits, threshold_hi, threshold_lo, digits1 }` (dumped in that order) -/
+structure DecDigits where
+  digits : UInt32
+  threshold_hi : UInt64
+  threshold_lo : UInt64
+  digits1 : UInt32
+  deriving DecidableEq, Repr, Inhabited
+
+def tblDD (t : List Nat) (i : UInt64) : Except String DecDigits :=
+  match t[4 * i.toNat]?, t[4 * i.toNat + 1]?, t[4 * i.toNat + 2]?, t[4 * i.toNat + 3]? with
+  | some a, some b, some c, some d => .ok ⟨UInt32.ofNat a, UInt64.ofNat b, UInt64.ofNat c, UInt32.ofNat d⟩
   | _, _, _, _ => .error "index out of bounds"
 
 /-- `T[i][j]` of a table `[[BID_UINT128; inner]; outer]` -/
